@@ -213,3 +213,9 @@ META = dict(
     explanation='symbolic execution of the assembly code with arbitrary phase results, loop-cut iterations, and an independent log oracle for recorded sessions',
     required_outcomes=['session assembled', 'call relayed', 'card relayed', 'session log compared'],
 )
+
+
+def validate(tier):
+    """translator validation: the interpreter in concrete mode against CPython on the functions this check encodes"""
+    from engine import validate as v
+    return v.run(['messages', 'plays', 'auctions', 'scores'], tier)
